@@ -880,7 +880,62 @@ struct ArraysWorld : World {
 			Block src(len, 0); if (len) memcpy(src.p, vals.data(), len);
 			st.hit(std::string("op:") + OPS[op.kind]);
 			switch (op.kind) {
-			case OP_X_ASSIGN: { if (op.c & 1) { { Sut s; *PA[h] = *PA[h2]; } MP3[h] = MP3[h2]; operated = h + 10; log.ev("X_ASSIGN plain %d = %d", h, h2); } else { { Sut s; *A[h] = *A[h2]; } M3[h] = M3[h2]; log.ev("X_ASSIGN %d = %d", h, h2); } outcome = 1; break; }
+			case OP_X_ASSIGN: if ((op.c & 14) == 6) {
+				// episode on the C++ slice class: a view on array h's buffer is moved and resized, written through, copied, and assigned
+				// to an array (possibly the one it views); the viewed array keeps its content, the view reads the model's sub-range
+				slice *sl; { Sut s; sl = new slice(*A[h]); }
+				size_t off = 0, n = M3[h].size(); const size_t total = n; std::vector<uint8_t> view = M3[h];
+				auto reads = [&](const slice *x, const char *what) {
+					span<const uint8_t> d = x->data();
+					if ((size_t) d.size() != view.size() || (view.size() && memcmp(d.begin(), view.data(), view.size()))) { size_t k = 0; while (k < (size_t) d.size() && k < view.size() && d.begin()[k] == view[k]) ++k;
+						fail("wrong-content", "slice %s reads %zu bytes, the model view [%zu,+%zu) of %zu holds %zu (first difference at %zu)", what, (size_t) d.size(), off, n, total, view.size(), k); }
+				};
+				reads(sl, "of the whole array");
+				for (int k = 0; k < 4; ++k) {
+					uint64_t z = (uint64_t) op.c * 0x9e3779b97f4a7c15ull + (uint64_t) k * 0xbf58476d1ce4e5b9ull; z ^= z >> 29;
+					ssize_t amt; unsigned m = (unsigned) (z & 7); size_t q = (size_t) ((z >> 8) % 5);
+					bool istrim = (z >> 3) & 1;
+					if (!istrim) amt = m < 3 ? (ssize_t) std::min(q, n) : m == 3 ? (ssize_t) n : m == 4 ? (ssize_t) n + 1 : m == 5 ? -(ssize_t) std::min(q, off) : m == 6 ? -(ssize_t) off : -(ssize_t) off - 1;
+					else { size_t room = total - off - n; amt = m < 3 ? (ssize_t) std::min(q, n) : m == 3 ? (ssize_t) n : m == 4 ? (ssize_t) n + 1 : m == 5 ? -(ssize_t) std::min(q, room) : m == 6 ? -(ssize_t) room : -(ssize_t) room - 1; }
+					bool ok; { Sut s; ok = istrim ? sl->trim(amt) : sl->shift(amt); }
+					bool valid = istrim ? (amt >= 0 ? (size_t) amt <= n : (size_t) -amt <= total - off - n) : (amt >= 0 ? (size_t) amt <= n : (size_t) -amt <= off);
+					log.ev("X_SLICE %d %s(%zd) on [%zu,+%zu) of %zu -> %d", h, istrim ? "trim" : "shift", amt, off, n, total, (int) ok);
+					if (ok && !valid) fail("accepted-invalid", "slice %s(%zd) accepted on view [%zu,+%zu) of %zu bytes", istrim ? "trim" : "shift", amt, off, n, total);
+					if (!ok && valid) fail("refused-valid", "slice %s(%zd) refused on view [%zu,+%zu) of %zu bytes", istrim ? "trim" : "shift", amt, off, n, total);
+					if (ok) { if (istrim) n -= amt; else { off += amt; n -= amt; } view.assign(M3[h].begin() + off, M3[h].begin() + off + n); }
+					reads(sl, istrim ? "after trim" : "after shift");
+				}
+				st.hit("probe:cxx_slice_moved");
+				slice *c2; { Sut s; c2 = new slice(*sl); } reads(c2, "copy-constructed from a slice"); { Sut s; delete c2; }
+				unsigned fin = (unsigned) (op.c >> 4) & 3;
+				if (fin == 0) {
+					// written through: the view grows by the blocks taken, the viewed array keeps its content
+					size_t nblk = 1 + (size_t) (op.c >> 6) % 4, bs = 1 + (size_t) (op.c >> 8) % 30; std::vector<uint32_t> w32 = fresh(nblk * bs); Block wb(nblk * bs, 0); for (size_t i = 0; i < w32.size(); ++i) wb.p[i] = (uint8_t) w32[i];
+					ssize_t w; { Sut s(failn); w = sl->write(nblk, wb.p, bs); fired = g.fired; }
+					log.ev("X_SLICE %d write %zu x %zu%s -> %zd", h, nblk, bs, fired ? " allocfail" : "", w);
+					if (w > (ssize_t) nblk) fail("wrong-content", "slice write reports %zd of %zu blocks", w, nblk);
+					if (w < 0) { if (!fired) fail("refused-valid", "slice write of %zu blocks of %zu bytes refused without allocation fault (%zd)", nblk, bs, w); }
+					else { for (size_t i = 0; i < (size_t) w * bs; ++i) view.push_back(wb.p[i]); n = view.size(); reads(sl, "after a write through it"); st.hit("probe:cxx_slice_written"); }
+				} else if (fin == 1) {
+					// assigned to an array: that array reads the view (also when it is the array the slice views)
+					{ Sut s(failn); *A[h2] = *sl; fired = g.fired; }
+					log.ev("X_SLICE array %d = slice[%zu,+%zu) of array %d%s", h2, off, n, h, fired ? " allocfail" : "");
+					const array::content *d2 = A[h2]->data(); size_t l2 = d2 ? d2->length() : 0;
+					if (!fired || (l2 == view.size() && (!l2 || !memcmp(d2->data(), view.data(), l2)))) M3[h2] = view;
+					else if (!(l2 == M3[h2].size() && (!l2 || !memcmp(d2->data(), M3[h2].data(), l2)))) fail("wrong-content", "array assigned from a slice under an allocation fault reads neither the view nor its old content (%zu bytes)", l2);
+					operated = h2; if (h2 != h) reads(sl, "after it was assigned to an array"); st.hit("probe:cxx_slice_assigned");
+				} else if (fin == 2) {
+					// content replaced from a convertable: the view covers the new content
+					struct SrcConv : public convertable { struct iovec vec; int convert(type_t ty, void *ptr) override { Harness hs; if (ty == (type_t) TypeVector) { if (ptr) *(struct iovec *) ptr = vec; return TypeVector; } return BadType; } } sc;
+					sc.vec.iov_base = src.p; sc.vec.iov_len = len;
+					int rc; { Sut s(failn); rc = sl->set(sc); fired = g.fired; }
+					log.ev("X_SLICE %d set(vector of %zu)%s -> %d", h, len, fired ? " allocfail" : "", rc);
+					if (rc < 0) { if (!fired) fail("refused-valid", "slice set from a vector of %zu bytes refused (%d) without allocation fault", len, rc); else reads(sl, "after a refused set"); }
+					else { view = vals; off = 0; n = view.size(); reads(sl, "after set from a vector"); }
+				}
+				{ Sut s; delete sl; }
+				outcome = 1; break;
+			} else { if (op.c & 1) { { Sut s; *PA[h] = *PA[h2]; } MP3[h] = MP3[h2]; operated = h + 10; log.ev("X_ASSIGN plain %d = %d", h, h2); } else { { Sut s; *A[h] = *A[h2]; } M3[h] = M3[h2]; log.ev("X_ASSIGN %d = %d", h, h2); } outcome = 1; break; }
 			case OP_X_RELEASE: { if (op.c & 1) { { Sut s; *PA[h] = typed_array<uint32_t>(); } MP3[h].clear(); operated = h + 10; log.ev("X_RELEASE plain %d", h); } else { { Sut s; *A[h] = array(); } M3[h].clear(); log.ev("X_RELEASE %d", h); } outcome = 1; break; }
 			case OP_X_APPEND: {
 				void *r; { Sut s(failn); r = A[h]->append(len, nul ? 0 : src.p); fired = g.fired; }
